@@ -200,3 +200,51 @@ def run(ctx, rep):
                 rep.violation('R1.5', vkey('R1.5', fn.name, 'find_entry', t['span']['snip']), fn.loc(t['span']),
                               '%s does not require an intermediate path component to be a directory' % fn.name)
     rep.counts['R1.5'] = n5
+
+
+# ---------------------------------------------------------------------------------------------
+# R1.9  "the destination is the source itself" is decided by the entries' absolute position
+
+def run_entry_identity(ctx, rep):
+    """rename onto an existing name is allowed only when source and destination are the SAME entry. Slot offsets are
+    relative to a directory, so they do not identify an entry across directories; the absolute position of the short
+    entry (`entry_pos`) does. The identity test must compare that field of both entries."""
+    facts = ctx.facts
+    fn = facts.fns.get('fatfs::dir_entry::DirEntry::is_same_entry') or facts.fns.get('fatfs::dir::Dir::rename_internal')
+    if fn is None:
+        rep.machinery('ANCHOR-MISSING DirEntry::is_same_entry / Dir::rename_internal')
+        return
+    d = Deps(fn)
+    ok = False
+    seen_cmp = 0
+    for bi in fn.reachable():
+        t = fn.blocks[bi]['term']
+        pairs = []
+        if t['k'] == 'call' and (t.get('callee') or '') in ('core::cmp::PartialEq::eq', 'core::cmp::PartialEq::ne') and len(t['args']) == 2:
+            pairs.append((t['args'][0], t['args'][1]))
+        for s in fn.blocks[bi]['stmts']:
+            if s['k'] == 'assign' and s['rv']['k'] == 'binop' and s['rv']['op'] in ('Eq', 'Ne'):
+                pairs.append((s['rv']['a'], s['rv']['b']))
+        for a, b in pairs:
+            ta, tb = d.of_operand(a), d.of_operand(b)
+            fa = {tk[1] for tk in ta if tk[0] == 'field'}
+            fb = {tk[1] for tk in tb if tk[0] == 'field'}
+            if fn.name.endswith('is_same_entry') or ('entry_pos' in fa | fb) or ({'offset_range'} & (fa | fb)):
+                seen_cmp += 1
+                if 'entry_pos' in fa and 'entry_pos' in fb:
+                    ok = True
+    rep.oblige('R1.9', fn.name, ok=ok, nontrivial=True,
+               sample={'fn': fn.name, 'rule': 'the identity test compares entry_pos of both entries', 'comparisons': seen_cmp})
+    if not ok:
+        rep.violation('R1.9', vkey('R1.9', fn.name, 'identity', ''), fn.loc(fn.span),
+                      'two directory entries are taken to be the same entry without comparing their absolute positions '
+                      '(entry_pos): entries of different directories that happen to occupy the same slot offsets are confused, '
+                      'so a move onto an existing name in another directory reports success and does nothing')
+
+
+_run_1 = run
+
+
+def run(ctx, rep):
+    _run_1(ctx, rep)
+    run_entry_identity(ctx, rep)
